@@ -164,6 +164,47 @@ func vScripts() []vScript {
 				dr.opMsg(k)
 				dr.opLoop(0)
 			}
+			// guardians run in different time zones: the watchers build the observation time with time.Unix (process-local zone);
+			// the digest must depend on the instant only
+			saved := time.Local
+			for _, z := range []*time.Location{time.FixedZone("east", 2*3600), time.FixedZone("west", -5*3600), time.FixedZone("odd", 5*3600+45*60), time.UTC} {
+				time.Local = z
+				k := w.msg(0)
+				k.Timestamp = time.Unix(1700000000+int64(z.String()[0]), 0)
+				dr.opMsg(k)
+				dr.opLoop(0)
+				k2 := w.msg(0)
+				k2.Timestamp = time.Unix(1700003600, 0).In(z)
+				dr.opMsg(k2)
+				dr.opLoop(0)
+			}
+			time.Local = saved
+		}},
+		{"c04-reobservation-of-a-stored-message-with-another-block-time", func(dr *vDriver, w *vWorld) {
+			// the node is the only guardian: its own signature is a quorum, the VAA is stored; the same message id is then observed
+			// again with another block time inside the settlement window (reorg / re-inclusion): the digest it signs must still be the
+			// digest of THAT observation's own fields, not of the stored VAA's
+			dr.opClock(1000)
+			if !dr.opSetGS(w.set(members(1, 0), 3)) {
+				return
+			}
+			k := w.msg(0)
+			k.Timestamp = time.Unix(1700000000, 0)
+			if !dr.opMsg(k) || !dr.opLoop(0) {
+				return
+			}
+			for _, d := range []int64{7, -7, 29, 30, 31, 3600} {
+				k2 := *k
+				k2.Timestamp = time.Unix(1700000000+d, 0)
+				if !dr.opMsg(&k2) {
+					return
+				}
+				for len(dr.pending) > 0 {
+					if !dr.opLoop(0) {
+						return
+					}
+				}
+			}
 		}},
 		{"c01-peer-copy-never-replaces-a-stored-vaa", func(dr *vDriver, w *vWorld) {
 			mem := members(4, 1)
